@@ -11,6 +11,7 @@ mod gen;
 mod model;
 mod ops;
 mod real;
+mod repro;
 mod ring;
 mod san;
 mod simdrv;
@@ -24,6 +25,7 @@ fn main() {
         "C07" => c07::run(&ctx),
         "C10" => c10::run(&ctx),
         "C18" => c18::run(&ctx),
+        "repro" => repro::main(),
         "san" => san::main(&ctx),
         "san-child" => san::child(&ctx.rest),
         other => {
